@@ -373,4 +373,209 @@ class SerialEngine(Engine):
             'tags': ['L%d' % case['maxlen'], 'omitted' if omitted else 'all-representable']}
 
 
-ENGINES = [SerialEngine()]
+# ---------------------------------------------------------------- the VALUE side: repr / pprint texts read back
+WORDS = ['alpha', 'beta', "it's", 'q"uote', 'café', 'x y', '#no comment', 'back\\slash', 'tab\there', 'new\nline', '', ' ', 'ünï', '{brace}', '%s',
+         '@ref', '%macro', 'a' * 40]
+
+
+def gen_pyval(rng, depth):
+  r = rng.random()
+  if depth <= 0 or r < 0.4:
+    k = rng.random()
+    if k < 0.25:
+      return ['i', rng.choice([0, 1, -1, 7, -12, 10 ** 6, -10 ** 18, 2 ** 70])]
+    if k < 0.4:
+      return ['f', rng.choice([0.0, -0.0, 1.5, -2.25, 1e+30, 1e-7, -3.0e+22, 0.1, 123456.789, float('inf'), float('nan')]).hex()
+              if False else repr(rng.choice([0.0, -0.0, 1.5, -2.25, 1e+30, 1e-7, -3.0e+22, 0.1, 123456.789, float('inf'), float('-inf'), float('nan')]))]
+    if k < 0.5:
+      return ['b', rng.random() < 0.5]
+    if k < 0.57:
+      return ['n']
+    if k < 0.63:
+      return ['by', rng.choice([b'', b'ab', b'\x00\xff', b"it's", b'x' * 50]).hex()]
+    if k < 0.66:
+      return ['c', rng.choice(['1j', '2.5j', '(1+2j)'])]      # complex: repr is not in the literal grammar gin reads (except 1j)
+    n = rng.choice([1, 1, 2, 3, 8, 20])      # long strings make pprint split the literal into adjacent pieces
+    return ['s', ' '.join(rng.choice(WORDS) for _ in range(n))]
+  if r < 0.6:
+    return ['l', [gen_pyval(rng, depth - 1) for _ in range(rng.choice([0, 1, 2, 3, 7]))]]
+  if r < 0.78:
+    return ['t', [gen_pyval(rng, depth - 1) for _ in range(rng.choice([0, 1, 1, 2, 3, 6]))]]
+  keys = []
+  for _ in range(rng.choice([0, 1, 2, 3, 6])):
+    k = rng.choice([['s', rng.choice(WORDS) + str(rng.randint(0, 9))], ['i', rng.randint(-5, 50)], ['t', [['i', rng.randint(0, 3)], ['s', 'k']]],
+                    ['b', True], ['n'], ['f', repr(rng.choice([2.5, -1.0]))]])
+    keys.append(k)
+  return ['d', [[k, gen_pyval(rng, depth - 1)] for k in keys]]
+
+
+def pyval(v):
+  t = v[0]
+  if t == 'i':
+    return v[1]
+  if t == 'f':
+    return float(v[1])
+  if t == 'b':
+    return bool(v[1])
+  if t == 'n':
+    return None
+  if t == 's':
+    return v[1]
+  if t == 'by':
+    return bytes.fromhex(v[1])
+  if t == 'c':
+    return complex(v[1])
+  if t == 'l':
+    return [pyval(x) for x in v[1]]
+  if t == 't':
+    return tuple(pyval(x) for x in v[1])
+  d = {}
+  for k, x in v[1]:
+    d[pyval(k)] = pyval(x)
+  return d
+
+
+def tok_coq(x):
+  return '{| ty := %s; text := %s; srow := %d; scol := %d; erow := %d; ecol := %d |}' % (x[0], C.cstr(x[1]), x[2], x[3], x[4], x[5])
+
+
+class Unmodelled(Exception):
+  pass
+
+
+def pv_coq(v):
+  """the value tree of coq/Model/Repr.v (None: some atom is outside the modelled universe)"""
+  try:
+    return pv_coq_(v)
+  except Unmodelled:
+    return None
+
+
+def pv_coq_(v):
+  """atoms are the tokens of repr(atom)"""
+  if isinstance(v, list):
+    return '(PList %s)' % (C.clist([pv_coq_(x) for x in v]) if v else '[]')
+  if isinstance(v, tuple):
+    return '(PTuple %s)' % (C.clist([pv_coq_(x) for x in v]) if v else '[]')
+  if isinstance(v, dict):
+    return '(PDict %s)' % (C.clist(['(%s, %s)' % (pv_coq_(k), pv_coq_(x)) for k, x in v.items()]) if v else '[]')
+  toks = [t for t in P.tokens_of(repr(v)) if t[0] not in ('NEWLINE', 'ENDMARKER', 'NL')]
+  if len(toks) == 1 and toks[0][0] in ('NAME', 'NUMBER'):
+    return '(PAtom %s)' % tok_coq(toks[0])
+  if len(toks) == 1 and toks[0][0] == 'STRING':
+    return '(PStr %s)' % tok_coq(toks[0])
+  if len(toks) == 2 and toks[0][1] == '-' and toks[1][0] in ('NAME', 'NUMBER'):
+    return '(PNeg %s)' % tok_coq(toks[1])
+  raise Unmodelled(repr(v))      # an atom whose repr is not one token (complex in parentheses, ...)
+
+
+def py_same(a, b):
+  """equal values of the same type, at every depth"""
+  if type(a) is not type(b):
+    return False
+  if isinstance(a, (list, tuple)):
+    return len(a) == len(b) and all(py_same(x, y) for x, y in zip(a, b))
+  if isinstance(a, dict):
+    if len(a) != len(b):
+      return False
+    for k, x in a.items():
+      ks = [j for j in b if py_same(j, k)]
+      if len(ks) != 1 or not py_same(b[ks[0]], x):
+        return False
+    return True
+  if isinstance(a, float) and a != a:
+    return b != b
+  return a == b
+
+
+def norm_dicts(x):
+  if isinstance(x, T):
+    args = [norm_dicts(a) for a in x.args]
+    return T(x.tag, *(sorted(args, key=repr) if x.tag == 'D' else args))
+  if isinstance(x, list):
+    return [norm_dicts(a) for a in x]
+  return x
+
+
+class ValueTextEngine(Engine):
+  """'restores ... an equal value of the same type' / 'always parses': for generated Python values (nested lists, tuples,
+  dicts; ints, floats incl. non-finite, bools, None, strings with quotes / escapes / non-ASCII / enough words to be
+  split by pprint, bytes) the real repr(v) and the real pprint.pformat(v, width) are tokenised and given to the model:
+  (1) Model/Repr.repr_toks spells exactly repr's tokens, (2)+(3) the parser model reads both texts as
+  gin.config.parse_value does, (4) the tree denotes Python's value.  Theorems C06_value_* state the round trip for
+  every tree and every layout."""
+  name = 'value-text'
+  imports = 'Model.Parser Model.ParserSpec Model.Repr'
+  run_fn = 'Repr.run'
+
+  def budget(self, tier):
+    return 220 if tier == 'quick' else 6000
+
+  def corpus(self):
+    return [{'v': ['d', [[['s', 'zeta'], ['l', [['i', -1], ['f', '1.5'], ['n']]]], [['s', 'alpha'], ['t', [['s', 'one two three ' * 8]]]],
+                          [['i', 3], ['d', []]]]], 'width': 30},
+            {'v': ['t', [['s', 'word ' * 30]]], 'width': 40}, {'v': ['s', 'word ' * 30], 'width': 20},
+            {'v': ['l', [['f', 'inf'], ['f', 'nan'], ['f', '-0.0']]], 'width': 80}, {'v': ['t', [['t', [['t', []]]]]], 'width': 5}]
+
+  def gen(self, rng, tier):
+    return {'v': gen_pyval(rng, rng.choice([0, 1, 2, 2, 3])), 'width': rng.choice([1, 5, 20, 40, 76, 80, 120])}
+
+  def shrink(self, case):
+    v = case['v']
+    if v[0] in ('l', 't', 'd'):
+      for i in range(len(v[1])):
+        yield dict(case, v=[v[0], v[1][:i] + v[1][i + 1:]])
+        yield dict(case, v=(v[1][i][1] if v[0] == 'd' else v[1][i]))
+
+  def texts(self, case):
+    v = pyval(case['v'])
+    return v, repr(v), pprint.pformat(v, width=case['width'])
+
+  def to_coq(self, case):
+    v, r, pf = self.texts(case)
+    tr, tp = P.tokens_of(r), P.tokens_of(pf)
+    orc = dict(P.oracle_for(tr))
+    orc.update(P.oracle_for(tp))
+    o = C.clist(['(%s, %s)' % (C.cstr(k), 'None' if x is None else '(Some %s)' % C.out(x)) for k, x in orc.items()])
+    pv = pv_coq(v)
+    if pv is None:
+      pv = '(PList [])'
+    return '(%s, %s, %s, %s)' % (o, pv, C.clist([tok_coq(t) for t in tr]), C.clist([tok_coq(t) for t in tp]))
+
+  def impl(self, case):
+    gin = C.cached_gin()
+    cfg = gin.config
+    v, r, pf = self.texts(case)
+    fails, tags = [], []
+
+    def read(text):
+      try:
+        return T('Value', P.canon_lit(cfg.parse_value(text)))
+      except SyntaxError as e:
+        return T('SyntaxError', e.lineno or 0)
+      except Exception as e:  # pylint: disable=broad-except
+        return T('Err', type(e).__name__)
+    modelled = pv_coq(v) is not None
+    want = P.canon_lit(v)
+    evaluates = P.lit_eval(r) is not None
+    obs = [bool(modelled), read(r), read(pf), T('Value', want) if (modelled and evaluates) else T('NoValue')]
+    if not modelled:
+      obs = [False, read(r), read(pf), T('Value', T('L'))]      # the placeholder tree given to the model
+      tags.append('atom-outside-model')
+    representable = bool(cfg._is_literally_representable(v))  # pylint: disable=protected-access
+    tags.append('representable' if representable else 'not-representable')
+    if '\n' in pf:
+      tags.append('multi-line')
+    if representable:
+      for what, text in (('repr', r), ('pformat(width=%d)' % case['width'], pf)):
+        got = read(text)
+        try:
+          same = py_same(cfg.parse_value(text), v)
+        except Exception:  # pylint: disable=broad-except
+          same = False
+        if not same:       # an equal value of the same type, at every depth (dict equality ignores insertion order)
+          fails.append(('emitted-value-text-reads-back-differently', '%s of %r is %r, which gin reads as %r' % (what, v, text, C.jsonable(got))))
+    return {'obs': obs, 'fails': fails[:2], 'nontrivial': representable and '\n' in pf and isinstance(v, (list, tuple, dict)), 'tags': tags}
+
+
+ENGINES = [SerialEngine(), ValueTextEngine()]
